@@ -297,8 +297,14 @@ func (w *world) checkInvariants(e *endpoint, d *kcp.VerifKCPDump, op string) {
 	if d.SndNxt-d.SndUna != uint32(len(d.SndBuf)) {
 		w.viol("inflight-count", fmt.Sprintf("%s after %s: snd_nxt-snd_una=%d but %d in snd_buf", e.name, op, d.SndNxt-d.SndUna, len(d.SndBuf)))
 	}
-	if d.RxRto < d.RxMinrto || d.RxRto > 60000 {
-		w.viol("rto-out-of-bounds", fmt.Sprintf("%s after %s: rx_rto %d, minrto %d", e.name, op, d.RxRto, d.RxMinrto))
+	// the configured minimum is 30 ms in no-delay mode and 100 ms otherwise (settings are only changed
+	// before traffic in these histories, so the bound holds from the start)
+	floor := uint32(100)
+	if d.Nodelay != 0 {
+		floor = 30
+	}
+	if d.RxRto < floor || d.RxRto < d.RxMinrto || d.RxRto > 60000 {
+		w.viol("rto-out-of-bounds", fmt.Sprintf("%s after %s: rx_rto %d, configured minimum %d (nodelay %d), internal minrto %d", e.name, op, d.RxRto, floor, d.Nodelay, d.RxMinrto))
 	}
 }
 
@@ -678,6 +684,10 @@ func (w *world) history(c cfg) {
 			if g.Chance(10) {
 				nd, rs, nc = -1, -1, -1
 			}
+			w.simple(e, fmt.Sprintf("nodelay %d %d %d %d", nd, iv, rs, nc), func() string { e.k.NoDelay(nd, iv, rs, nc); return "ok" })
+		}
+		if g.Chance(30) { // settings may be changed more than once before traffic starts
+			nd, iv, rs, nc := g.Intn(2), []int{10, 20, 40, 100}[g.Intn(4)], g.Intn(4), g.Intn(2)
 			w.simple(e, fmt.Sprintf("nodelay %d %d %d %d", nd, iv, rs, nc), func() string { e.k.NoDelay(nd, iv, rs, nc); return "ok" })
 		}
 		if g.Chance(80) {
